@@ -268,9 +268,10 @@ def to_expr(n, rich=False):
     if k == "FloatingLiteral":
         t = text(n).rstrip("fFlL")
         try:
-            return ("num", Fraction(t))
+            v = Fraction(t)
         except Exception:
-            return ("num", Fraction(float(n["value"])))
+            v = Fraction(float(n["value"]))
+        return ("num", v, "f") if rich else ("num", v)
     if k == "CXXBoolLiteralExpr":
         return ("bool", bool(n.get("value")))
     if k in ("DeclRefExpr",):
@@ -297,7 +298,7 @@ def to_expr(n, rich=False):
         if op == "-":
             e = to_expr(ks[0], rich)
             if e[0] == "num":
-                return ("num", -e[1])
+                return ("num", -e[1]) + tuple(e[2:])
             return ("neg", e)
         if op == "+":
             return to_expr(ks[0], rich)
@@ -308,7 +309,7 @@ def to_expr(n, rich=False):
         if k == "CXXUnresolvedConstructExpr":
             ty = n.get("typeAsWritten", {}).get("qualType", ty) or ty
         args = [to_expr(c, rich) for c in ks]
-        if len(args) == 1 and (ty in SCALAR_CTORS or ty.endswith("Scalar") or k == "CXXConstructExpr"):
+        if len(args) == 1 and (ty in SCALAR_CTORS or ty.endswith("Scalar") or k == "CXXConstructExpr") and not (rich and k != "CXXConstructExpr"):
             return args[0]
         return ("ctor", ty, args)
     if k == "ConditionalOperator":
@@ -343,7 +344,7 @@ def to_expr(n, rich=False):
         return ("call", callee_name(cal, rich), args)
     if k == "CXXOperatorCallExpr":
         cal = strip(ks[0])
-        op = callee_name(cal, rich) or ""
+        op = callee_name(cal) or ""
         op = op.replace("operator", "")
         args = [to_expr(c, rich) for c in ks[1:]]
         if op == "()":
